@@ -45,7 +45,13 @@ fn subprocess_result(mut args: Args) -> Result<i32> {
             let linker = crate::Linker::new();
             let _outputs = linker.run(&args, &thread_pool)?;
             crate::timing::finalise_perfetto_trace()?;
+            #[cfg(feature = "verif")]
+            crate::verif_api::fault::fault_point("before-inform-parent")?;
+
             inform_parent_done(&fds);
+
+            #[cfg(feature = "verif")]
+            crate::verif_api::fault::fault_point("after-inform-parent")?;
             Ok(0)
         }
         -1 => {
